@@ -9,8 +9,9 @@ LABELS = ("c06.",)
 
 
 def run(ctx):
-    for cfgname in ("RetryModel.cfg", "RetryModel2.cfg"):
-        r = ctx.model_check("Resolver/RetryModel.tla", cfgname, workers=8, timeout=600)
+    # RetryModel3*: the application replaces the server list while the query is outstanding (sequential destruction)
+    for cfgname in ("RetryModel.cfg", "RetryModel2.cfg", "RetryModel3q.cfg" if ctx.quick else "RetryModel3.cfg"):
+        r = ctx.model_check("Resolver/RetryModel.tla", cfgname, workers=8, timeout=1500)
         if r.violation:
             raise vlib.MachineryError("RetryModel.tla violates %s" % r.violation)
     lat = {"module": "GenLatency.tla", "cfg": "GenLatency.cfg", "name": "latency"}
